@@ -100,6 +100,13 @@ func runCheck(spec *Spec, o *runOpts) int {
 				v.Harness = hs.Func
 			}
 		}
+		if !o.noNative {
+			nval, problems := validateAgainstNative(p, u, results, o.tier, o)
+			fmt.Printf("   engine-vs-native differential: %d concrete traces agree\n", nval)
+			for _, pr := range problems {
+				inconclusive = append(inconclusive, "translator validation: "+pr)
+			}
+		}
 	}
 	// violations: native replay + known findings
 	known := loadKnown()
